@@ -49,10 +49,13 @@ def gen_case(rng, i):
     vecnorm = rng.random() < 0.25
     if vecnorm:
         obs_kind = rng.choice(["box1", "box2"])     # VecNormalize needs Box observations
-    return {"id": i, "vecnorm": vecnorm, "vn_obs": rng.random() < 0.6, "algo": rng.choice(["PPO", "A2C"]), "n_envs": n_envs, "n_steps": rng.randint(1, 6),
+    elif i % 9 == 4:
+        obs_kind = rng.choice(["image", "dictimg"])
+    split_fe = rng.random() < 0.4                   # separate actor / critic feature extractors (with parameters)
+    return {"id": i, "vecnorm": vecnorm, "vn_obs": rng.random() < 0.6, "split_fe": split_fe, "algo": rng.choice(["PPO", "A2C"]), "n_envs": n_envs, "n_steps": rng.randint(1, 6),
             "act": ACT_KINDS[i % len(ACT_KINDS)], "obs": obs_kind, "gamma": rng.choice([0.5, 0.9, 0.99]),
             "calls": calls, "seed": rng.randint(0, 10**6),
-            "scripts": [se.gen_script(rng, max_len=5, tag_base=1000 * e, p_both=0.2, p_trunc=0.45) for e in range(n_envs)]}
+            "scripts": [se.gen_script(rng, max_len=5, tag_base=1000 * e, tag_cap=250 if obs_kind in ("image", "dictimg") else se.MAXTAG - 1, p_both=0.2, p_trunc=0.45) for e in range(n_envs)]}
 
 
 # ---------------------------------------------------------------- implementation run
@@ -77,6 +80,8 @@ def run_impl(case):
     M = float(se.MAXTAG)
     obs_space = {"box1": None, "box2": None,
                  "dictc": spaces.Dict({"a": spaces.Box(-M, M, (2,), dtype=np.float32), "b": spaces.Box(-M, M, (1, 3), dtype=np.float32)}),
+                 "image": spaces.Box(0, 255, (36, 36, 3), dtype=np.uint8),
+                 "dictimg": spaces.Dict({"img": spaces.Box(0, 255, (36, 36, 1), dtype=np.uint8), "a": spaces.Box(-M, M, (2,), dtype=np.float32)}),
                  "disc": spaces.Discrete(4096)}[case["obs"]]
     act = case["act"]
     act_kind = {"box_squash": "box_asym", "box_sde": "box_asym"}.get(act, act)
@@ -162,7 +167,28 @@ def run_impl(case):
     if act == "box_sde":
         kw["use_sde"] = True
         kw["sde_sample_freq"] = 2
-    policy = "MultiInputPolicy" if case["obs"] == "dictc" else "MlpPolicy"
+    policy = {"dictc": "MultiInputPolicy", "dictimg": "MultiInputPolicy", "image": "CnnPolicy"}.get(case["obs"], "MlpPolicy")
+    if case["obs"] == "image":
+        pk["features_extractor_kwargs"] = dict(features_dim=8)
+    if case["obs"] == "dictimg":
+        pk["features_extractor_kwargs"] = dict(cnn_output_dim=8)
+    if case.get("split_fe"):
+        pk["share_features_extractor"] = False
+        if policy == "MlpPolicy":
+            from stable_baselines3.common.preprocessing import get_flattened_obs_dim
+            from stable_baselines3.common.torch_layers import BaseFeaturesExtractor
+
+            class TinyExtractor(BaseFeaturesExtractor):
+                """a features extractor WITH parameters, so that actor and critic extractors differ when not shared"""
+
+                def __init__(self, observation_space, features_dim=6):
+                    super().__init__(observation_space, features_dim)
+                    self.net = th.nn.Sequential(th.nn.Flatten(), th.nn.Linear(get_flattened_obs_dim(observation_space), features_dim), th.nn.Tanh())
+
+                def forward(self, observations):
+                    return self.net(observations)
+
+            pk["features_extractor_class"] = TinyExtractor
     th.manual_seed(case["seed"])
     if case["algo"] == "PPO":
         model = sb3.PPO(policy, venv, n_steps=ns, batch_size=max(1, ns * ne), n_epochs=1, normalize_advantage=False, gamma=case["gamma"],
@@ -170,7 +196,8 @@ def run_impl(case):
     else:
         model = sb3.A2C(policy, venv, n_steps=ns, gamma=case["gamma"], policy_kwargs=pk, device="cpu", seed=case["seed"], **kw)
     pol = model.policy
-    events = []  # ("fwd", tags, actions, values, logps) / ("pv", tags, values)
+    dspace = model.get_env().observation_space      # what the policy is handed (images: channel-first)
+    events = []  # ("fwd", tags, actions, values, logps) / ("pv", tags, values, values by an independent path)
 
     def tags_of(obs_t):
         if isinstance(obs_t, dict):
@@ -182,7 +209,7 @@ def run_impl(case):
         if vn_obs:
             return lookup(arr)
         try:
-            return se.decode_batch(ospace, arr, n)
+            return se.decode_batch(dspace, arr, n)
         except se.MixedObservation as ex:
             return [f"mixed:{ex}"] * n
 
@@ -196,7 +223,14 @@ def run_impl(case):
 
     def pv(obs):
         v = o_pv(obs)
-        events.append(["pv", tags_of(obs), v.detach().cpu().numpy().astype(np.float64).reshape(-1).tolist()])
+        # oracle side: the value the policy's critic assigns to the same observation, through a path that does not use
+        # predict_values (policy.forward), on the policy as it is right now; RNG state restored so that the run is unaffected
+        rng_state = th.get_rng_state()
+        with th.no_grad():
+            v_ind = o_fwd(obs)[1]
+        th.set_rng_state(rng_state)
+        events.append(["pv", tags_of(obs), v.detach().cpu().numpy().astype(np.float64).reshape(-1).tolist(),
+                       v_ind.detach().cpu().numpy().astype(np.float64).reshape(-1).tolist()])
         return v
 
     pol.forward = fwd
@@ -224,7 +258,7 @@ def run_impl(case):
                     obs_tags.append(list(venv.before[g][1]) if ok else ["unmatched-normalised-observation"] * ne)
                     continue
                 try:
-                    obs_tags.append(se.decode_batch(ospace, batch, ne))
+                    obs_tags.append(se.decode_batch(dspace, batch, ne))
                 except se.MixedObservation as ex:
                     obs_tags.append([f"mixed:{ex}"] * ne)
             # independent recomputation on the frozen policy (oracle side)
@@ -243,7 +277,7 @@ def run_impl(case):
                 "starts": rb.episode_starts.astype(np.float64).tolist(), "values": rb.values.astype(np.float64).tolist(), "logps": rb.log_probs.astype(np.float64).tolist(),
                 "full": bool(rb.full), "re_values": v2.numpy().astype(np.float64).reshape(T, ne).tolist(), "re_logps": lp2.numpy().astype(np.float64).reshape(T, ne).tolist(),
                 "last_values": self.locals["values"].detach().cpu().numpy().astype(np.float64).reshape(-1).tolist(), "re_last_values": lv2.numpy().astype(np.float64).reshape(-1).tolist(),
-                "dones": [bool(d) for d in self.locals["dones"]], "new_obs_tags": lookup(self.locals["new_obs"]) if vn_obs else se.decode_batch(ospace, self.locals["new_obs"], ne),
+                "dones": [bool(d) for d in self.locals["dones"]], "new_obs_tags": lookup(self.locals["new_obs"]) if vn_obs else se.decode_batch(dspace, self.locals["new_obs"], ne),
                 "n_events": len(events), "call": len(call_bounds),
             })
 
@@ -376,6 +410,9 @@ def oracle(case, impl, ros):
                 want = base_r
                 if e in boot_envs and len(pvs) == len(boot_envs):
                     pvrec = pvs[boot_envs.index(e)]
+                    if len(pvrec) > 3 and not close(pvrec[2][0], pvrec[3][0], 1e-4, 1e-4):
+                        probs.append(("oracle-bootstrap-value-not-critic-value", f"{where}: the bootstrap used V(terminal obs) = {pvrec[2][0]}, but the policy's critic "
+                                                                                 f"(policy.forward on the same observation) gives {pvrec[3][0]}"))
                     if pvrec[1] != [s["tag"]]:
                         probs.append(("oracle-bootstrap-observation", f"{where}: bootstrap value taken at {pvrec[1]}, terminal observation is {s['tag']}"))
                     want = base_r + gamma * pvrec[2][0]
@@ -404,6 +441,8 @@ def oracle(case, impl, ros):
                 probs.append(("oracle-last-values-observation", f"rollout {r} env {e}: new_obs {sn['new_obs_tags'][e]} but the env returned {s['returned']}"))
             if sn["dones"][e] != s["done"]:
                 probs.append(("oracle-last-dones", f"rollout {r} env {e}: dones {sn['dones'][e]} vs env {s['done']}"))
+            if len(ro["last"]) > 3 and not close(ro["last"][2][e], ro["last"][3][e], 1e-4, 1e-4):
+                probs.append(("oracle-last-values-not-critic-value", f"rollout {r} env {e}: last value {ro['last'][2][e]}, but the policy's critic (policy.forward on new_obs) gives {ro['last'][3][e]}"))
             if sn["last_values"][e] != ro["last"][2][e] or not close(sn["last_values"][e], sn["re_last_values"][e], 1e-4, 1e-4):
                 probs.append(("oracle-last-values", f"rollout {r} env {e}: last value {sn['last_values'][e]} vs recomputed {sn['re_last_values'][e]}"))
     return probs
@@ -555,12 +594,13 @@ def main():
         cases.append(gen_case(chk.rng, i))
     impls, results = run_cases(chk, cases)
     distinct = set()
-    hist = {"vecnorm": 0, "vecnorm_obs": 0, "algo": {}, "act": {}, "obs": {}, "n_envs": {}, "n_steps": {}, "calls": {}, "bootstraps": 0, "both_flags_steps": 0, "rollouts": 0}
+    hist = {"split_extractors": 0, "vecnorm": 0, "vecnorm_obs": 0, "algo": {}, "act": {}, "obs": {}, "n_envs": {}, "n_steps": {}, "calls": {}, "bootstraps": 0, "both_flags_steps": 0, "rollouts": 0}
     for c, im, probs in zip(cases, impls, results):
         for k in ("algo", "act", "obs", "n_envs", "n_steps"):
             hist[k][c[k]] = hist[k].get(c[k], 0) + 1
         hist["calls"][len(c["calls"])] = hist["calls"].get(len(c["calls"]), 0) + 1
         hist["vecnorm"] += int(bool(c.get("vecnorm")))
+        hist["split_extractors"] += int(bool(c.get("split_fe")))
         hist["vecnorm_obs"] += int(bool(c.get("vecnorm")) and bool(c.get("vn_obs")))
         if not im.get("error"):
             hist["rollouts"] += len(im["snaps"])
